@@ -3,7 +3,7 @@
 From Coq Require Import List ZArith Bool Permutation.
 From PV Require Import lib.Sx lib.Result model.Store model.Iso
      spec.SpecIso proofs.StoreFacts proofs.DeepcopyFacts proofs.IsoFacts proofs.RegionFacts proofs.OracleFacts
-     proofs.IsoExamples.
+     proofs.IsoExamples model.HeapProg proofs.HeapProgFacts proofs.HeapProgInst proofs.HeapProgHist.
 Import ListNotations.
 
 (* deepcopy: everything that existed stays as it is, the copy lives in fresh locations and points only into itself
@@ -242,3 +242,137 @@ Example C09_example_oracle_reports_leak :
   check_hist tree tree_eqb TCut true false 0 [] [] (model_obs (mkCfg true true false) world0 (hist15 W_DFXP))
   = [(4, 2); (5, 2)]%Z.
 Proof. exact oracle_reports_open_span_leak. Qed.
+
+(* ==== wave 7: the writers as HEAP PROGRAMS (model/HeapProg.v) ==========================================================
+   A writer is a program that may load from and store into ANY object a register points to - the argument included.
+   `check` is a static ownership analysis; the theorems below hold for EVERY program, not for the eight writers only. *)
+
+(* soundness of the analysis, one command at a time: from a state whose owned registers point into the region allocated
+   since st0 (or hold scalars), an accepted program - on its normal exit and on every raising exit - has touched nothing
+   that existed in st0, has only allocated, and (normal exit) the registers the analysis reports as owned are owned *)
+Theorem C09_ownership_analysis_sound : forall o c a a' st0 h h' e,
+  check c a = Some a' -> inv st0 (h_st h) -> senv (length st0) (length (h_st h)) a (h_env h) ->
+  exec o c h = (h', e) ->
+  inv st0 (h_st h') /\ (length (h_st h) <= length (h_st h'))%nat /\
+  (e = None -> senv (length st0) (length (h_st h')) a' (h_env h')).
+Proof. exact exec_sound. Qed.
+Print Assumptions C09_ownership_analysis_sound.
+
+(* the frame theorem: ANY accepted program, any store (even ill-formed), any argument, any options *)
+Theorem C09_heap_program_frame : forall p a' o st s,
+  check p [] = Some a' -> inv st (h_st (fst (run_prog p o st s))).
+Proof. exact prog_footprint. Qed.
+Print Assumptions C09_heap_program_frame.
+
+Theorem C09_heap_program_preserves_snapshots : forall p a' o st s fuel v,
+  check p [] = Some a' -> wf st -> below (length st) v ->
+  snap fuel (h_st (fst (run_prog p o st s))) v = snap fuel st v.
+Proof. exact prog_preserves_snapshots. Qed.
+Print Assumptions C09_heap_program_preserves_snapshots.
+
+(* the proof obligation of pycaption's eight writers: their heap programs are accepted *)
+Theorem C09_writer_programs_owned : forall reset k, exists a', check (prog_with reset k) [] = Some a'.
+Proof. exact writers_owned. Qed.
+Print Assumptions C09_writer_programs_owned.
+
+(* hence: the program-based write (what request 902 executes against the real writers) has the footprint property *)
+Theorem C09_program_write_footprint : forall c k o i st s, inv st (wr_store (writeP c k o i st s)).
+Proof. exact writeP_inv. Qed.
+Print Assumptions C09_program_write_footprint.
+
+Theorem C09_program_write_preserves_input : forall c k o i st s fuel v,
+  wf st -> below (length st) v -> snap fuel (wr_store (writeP c k o i st s)) v = snap fuel st v.
+Proof. exact writeP_preserves_input. Qed.
+Print Assumptions C09_program_write_preserves_input.
+
+Theorem C09_program_history_wf_world : forall c ops w, repaired c -> wf_world w -> wf_world (runP_world c w ops).
+Proof. exact historyP_wf_world. Qed.
+Print Assumptions C09_program_history_wf_world.
+
+(* through ANY history of reads, builds, edits and program writes *)
+Theorem C09_program_write_after_any_history_preserves : forall c ops wid k o si,
+  repaired c ->
+  let w := runP_world c world0 ops in
+  let w' := fst (stepP c w (OWrite wid k o si)) in
+  w_sets w' = w_sets w /\ forall fuel, map (snap fuel (w_st w')) (w_sets w) = map (snap fuel (w_st w)) (w_sets w).
+Proof. exact writeP_after_any_history_preserves. Qed.
+Print Assumptions C09_program_write_after_any_history_preserves.
+
+(* the writers with the deepcopy line deleted, replaced by copy.copy, or placed after the first assignment:
+   REJECTED by the analysis, and they do change the snapshot of their input on a concrete set *)
+Theorem C09_copy_discipline_variants_refuted :
+  forallb (fun p => match check p [] with None => true | Some _ => false end) variants = true /\
+  forallb (fun p => input_changed p dflt_opts positioned) variants = true.
+Proof. exact variants_rejected_and_wrong. Qed.
+Print Assumptions C09_copy_discipline_variants_refuted.
+
+Example C09_example_programs_assign_on_their_copy :
+  map (fun k => input_changed (prog_of k) dflt_opts positioned) [1; 2; 3; 4; 5; 6; 7; 8]%Z
+    = [false; false; false; false; false; false; false; false] /\
+  (let w1 := run_world fixed world0 [OBuild positioned] in
+   let s := nth 0 (w_sets w1) VNone in
+   map (fun k => wr_fp (writeP fixed k dflt_opts winst0 (w_st w1) s)) [W_DFXP; W_SAMI]
+     = [[(KCaption, 5%Z)]; [(KCaption, 5%Z)]]).
+Proof. exact writers_assign_on_their_copy. Qed.
+
+(* ---- half 2 on the heap programs: the writer's INSTANCE state (open_span, last_time, global_layout = registers that
+   survive a write() on the same object).  The programs contain the rendering state machines (span open / close, SAMI blank
+   sync) and emit tokens; `du` is a static "assigned before it is read" analysis. ---- *)
+
+(* soundness of the analysis for EVERY program: two runs from states that differ only in registers the analysis knows to be
+   assigned before they are read exit the same way, with the same store, tokens, footprint, copy count *)
+Theorem C09_assigned_before_read_sound : forall o c u u' h1 h2 h1' h2' x1 x2,
+  du c u = Some u' -> same_heap h1 h2 -> agree u (h_env h1) (h_env h2) ->
+  exec o c h1 = (h1', x1) -> exec o c h2 = (h2', x2) ->
+  x1 = x2 /\ same_heap h1' h2' /\ (x1 = None -> agree u' (h_env h1') (h_env h2')).
+Proof. exact du_sound. Qed.
+Print Assumptions C09_assigned_before_read_sound.
+
+(* the obligation of the eight writers (repaired code): every instance register is assigned before it is read *)
+Theorem C09_writer_programs_reset_instance_state : forall k, exists u', du (prog_of k) inst_regs = Some u'.
+Proof. exact writers_reset_instance_state. Qed.
+Print Assumptions C09_writer_programs_reset_instance_state.
+
+(* hence, for every writer kind, options, store, argument: same object again = a fresh object = an object that wrote other
+   sets or raised - store effect, result (tokens or exception), footprint, copy count.  Unlike C09_write_instance_independent
+   this is about programs in which the instance state CAN reach the output *)
+Theorem C09_program_write_instance_independent : forall c k o i1 i2 st s,
+  fix15 c = true ->
+  let r1 := writeP c k o i1 st s in
+  let r2 := writeP c k o i2 st s in
+  wr_store r1 = wr_store r2 /\ wr_result r1 = wr_result r2 /\ wr_fp r1 = wr_fp r2 /\ wr_copies r1 = wr_copies r2.
+Proof. exact writeP_instance_independent. Qed.
+Print Assumptions C09_program_write_instance_independent.
+
+(* without the reset line the span writers (and WebVTT without its global_layout assignment) are REJECTED by the analysis,
+   and the history of defect 15 shows the leak on the programs; with it the reused object emits what a fresh one emits *)
+Theorem C09_missing_reset_refuted :
+  forallb (fun k => rejects_du (prog_with false k)) span_kinds = true /\
+  rejects_du prog_vtt_no_global = true /\
+  forallb (fun k => let r := runP (mkCfg true true false) world0 (hist15 k) in
+                    negb (zl_eqb (tokens_of r 4) (tokens_of r 5))) span_kinds = true /\
+  forallb (fun k => let r := runP fixed world0 (hist15 k) in
+                    zl_eqb (tokens_of r 4) (tokens_of r 5) && zl_eqb (tokens_of r 4) (tokens_of r 2)) span_kinds = true.
+Proof. exact missing_reset_rejected_and_wrong. Qed.
+Print Assumptions C09_missing_reset_refuted.
+
+Example C09_example_programs_render_like_the_store_model :
+  forallb (fun k => forallb (fun c =>
+     forallb (fun p => zl_eqb (mo_tokens (fst (fst p))) (mo_tokens (fst (snd p)))
+                       && Bool.eqb (mo_open (fst (fst p))) (mo_open (fst (snd p))))
+             (combine (run c world0 (hist15 k)) (runP c world0 (hist15 k))))
+     [fixed; mkCfg true true false]) span_kinds = true.
+Proof. exact programs_render_like_the_store_model. Qed.
+
+(* at history level: in any world, i.e. after any history, the writer OBJECT that performs a write (used before, raised
+   before, new) is irrelevant for store, exit, tokens, footprint and copy count *)
+Theorem C09_program_step_writer_object_irrelevant : forall c w wid1 wid2 k o si,
+  fix15 c = true ->
+  let r1 := stepP c w (OWrite wid1 k o si) in
+  let r2 := stepP c w (OWrite wid2 k o si) in
+  w_st (fst r1) = w_st (fst r2) /\ w_sets (fst r1) = w_sets (fst r2) /\
+  mo_err (snd r1) = mo_err (snd r2) /\ mo_tokens (snd r1) = mo_tokens (snd r2) /\
+  mo_fp (snd r1) = mo_fp (snd r2) /\ mo_copies (snd r1) = mo_copies (snd r2) /\
+  mo_changed_below (snd r1) = mo_changed_below (snd r2).
+Proof. exact stepP_writer_object_irrelevant. Qed.
+Print Assumptions C09_program_step_writer_object_irrelevant.
